@@ -628,7 +628,13 @@ func RenderTree(roots []*RDir, l *Layout) *Rendered {
 				if e < len(blocks) && blocks[e].paren == 1 {
 					continue // the "(" that follows belongs to the last directive of the piece: not a directive boundary
 				}
-				if blocks[s].dir.Kind == "JSIGHT" {
+				hasJsight := false
+				for k := s; k < e; k++ {
+					if blocks[k].paren == 0 && blocks[k].dir.Kind == "JSIGHT" {
+						hasJsight = true // the language forbids JSIGHT in included files
+					}
+				}
+				if hasJsight {
 					continue
 				}
 				// the block that follows a Description text must not become the first line after an INCLUDE... it may: INCLUDE is a keyword line
